@@ -372,7 +372,12 @@ class _VersionIndependentUnmarshaller:
     # Since Python 3.4
     def t_interned(self, save_ref, bytes_for_s=False):
         strsize = unpack("<i", self.fp.read(4))[0]
-        interned = compat_str(self.fp.read(strsize))
+        raw = self.fp.read(strsize)
+        if magic_int2tuple(self.magic_int) >= (3, 0):
+            # In Python 3, TYPE_INTERNED is text, encoded like TYPE_UNICODE.
+            interned = raw.decode("utf-8", "surrogatepass")
+        else:
+            interned = compat_str(raw)
         self.internStrings.append(interned)
         return self.r_ref(interned, save_ref)
 
